@@ -121,7 +121,10 @@ class Iter:
             yld = (t if self.subspec is T else _glom_lazily(t, self.subspec, scope))
             if yld is SKIP:
                 continue
-            elif yld is self.sentinel or yld is STOP:
+            elif (yld is STOP or yld is self.sentinel
+                  or (self.sentinel is not STOP and yld == self.sentinel)):
+                # (the sentinel is found by ==, as with the built-in iter():
+                # a value computed from real data is rarely the same object)
                 # NB: sentinel defaults to STOP so I was torn whether
                 # to also check for STOP, and landed on the side of
                 # never letting STOP through.
